@@ -6,6 +6,7 @@
 package main
 
 import (
+	"context"
 	"fmt"
 	"net/http"
 	"net/http/httptest"
@@ -555,6 +556,58 @@ func transportSlowClientScenario(name string, batches int, bound int) *vx.Scenar
 	return sc
 }
 
+// ---- 4b. one of two pending polls belongs to a request whose context is already done (the client gave up, a proxy
+// deadline passed) when a packet is queued: the packet is answered at that instant by one of the polls - it does
+// not go back into the queue without anybody being woken.
+func transportCancelledPollScenario(name string, bound int) *vx.Scenario {
+	sc := &vx.Scenario{Name: name, PreemptOnly: true, Bound: bound, Horizon: 10 * pollTimeout}
+	sc.Body = func(e *vsched.Exec) func() vx.Result {
+		cb := transport.NewCallbacks()
+		tr := polling.NewServerTransport(cb, 0, pollTimeout)
+		var obs vsched.Var
+		got := map[string]time.Duration{}
+		pending := 0
+		ctx, cancel := context.WithCancel(context.Background())
+		for c := 0; c < 2; c++ {
+			c := c
+			vsched.GoQuiet(fmt.Sprintf("poller%d", c), func() {
+				rec := httptest.NewRecorder()
+				req, _ := http.NewRequest("GET", "http://x/engine.io/?EIO=4&transport=polling&sid=s", nil)
+				if c == 0 {
+					req = req.WithContext(ctx)
+				}
+				obs.Do(func() { pending++ })
+				tr.ServeHTTP(rec, req)
+				body := rec.Body.String()
+				obs.Do(func() {
+					for _, part := range strings.Split(body, "\x1e") {
+						if part != "" {
+							got[part] = e.Clock()
+						}
+					}
+				})
+			})
+		}
+		vsched.GoQuiet("sender", func() {
+			vsched.Sleep(time.Second) // both polls are pending
+			cancel()                  // the first request is dead from now on
+			vsched.Sleep(time.Second)
+			tr.Send(msg("after-the-cancel"))
+		})
+		return func() vx.Result {
+			var r vx.Result
+			at, ok := got["4after-the-cancel"]
+			r.Outcome = fmt.Sprintf("delivered=%v at=%v", ok, at)
+			if !ok || at > 2*time.Second {
+				r.Violate("pollQueue: queued packet waited although a poll was pending (one of the pending polls belonged to a cancelled request)",
+					"two polls pending, the request of the first was cancelled at 1 s, a packet was sent at 2 s: answered=%v at %v (poll timeout %v)", ok, at, pollTimeout)
+			}
+			return r
+		}
+	}
+	return sc
+}
+
 // ---- 5. the whole send path of a connected Socket.IO client: an event emitted on a connected socket leaves at
 // once (the in-process link has no latency: the server's handler runs at the same virtual instant), whatever
 // the socket went through before - an ack timeout that fired, events buffered while it was connecting, a
@@ -703,6 +756,7 @@ func scenarios(tier string) []*vx.Scenario {
 		transportScenario("transport/2pollers-1sender-thrice", 2, [][]int{{1, 1, 1}}, false, big),
 		transportScenario("transport/2pollers-1sender-twice-discard", 2, [][]int{{1, 1}}, true, big-1),
 		transportSlowClientScenario("transport/2pollers-slow-reading-client-3-packets", 3, big),
+		transportCancelledPollScenario("transport/2pollers-one-cancelled-request", big),
 		clientSendPath("client-send-path/plain", "plain", 1),
 		clientSendPath("client-send-path/after-an-ack-timeout-fired", "ack-timeout-fired", 1),
 		clientSendPath("client-send-path/after-two-ack-timeouts-fired", "two-ack-timeouts-fired", 1),
